@@ -56,6 +56,7 @@ def _case(draw):
             # a north-up raster: the y axis (or the x axis) stored descending, rows / columns of the field stored accordingly
             "descending": draw(st.sampled_from(["none", "none", "y", "x", "xy"]))}
     case["level"] = draw(st.integers(0, case["stack"] - 1))
+    case["neg_level"] = draw(st.integers(0, 3)) == 0  # the same slice addressed from the top (level -1 = the uppermost one)
     return case
 
 
@@ -216,7 +217,7 @@ def check_case(case):
         if nx < 2 or (ny < 2):
             continue
         try:
-            level, area = extract_percentile_contour(F, grid, pct=p, level=lvl)
+            level, area = extract_percentile_contour(F, grid, pct=p, level=(lvl - st_ if case.get("neg_level") and st_ > 1 else lvl))
         except Exception as e:
             out.bad(f"extract_percentile_contour raised {type(e).__name__}: {e}")
             continue
